@@ -128,6 +128,7 @@ def cut_context(body: bytes, marks: list[dict], cut: int, nl: bytes) -> str:
 class DecoderChunking(Scenario):
     pid = "C01"
     name = "c01_decoder_chunking"
+    level = "fault_enumeration"
     cases = {"quick": 6000, "thorough": 120000}
     chunk = 100
     real = "werkzeug.sansio.multipart.MultipartDecoder (receive_data / next_event)"
@@ -251,6 +252,7 @@ def parse_with_parser(boundary: bytes, body: bytes, buffer_size: int, tape: list
 class ParserBuffer(Scenario):
     pid = "C01"
     name = "c01_parser_buffer"
+    level = "fault_enumeration"
     cases = {"quick": 4000, "thorough": 80000}
     chunk = 100
     real = "werkzeug.formparser.MultiPartParser.parse, _chunk_iter, MultipartDecoder, FileStorage, default_stream_factory"
